@@ -3,9 +3,13 @@
 (* Block tables of c-dns (src/block_table.h, the nine tables of CdnsBlock) *)
 (* and the value semantics of blocks (C11, C19).                           *)
 (*                                                                         *)
-(* Abs : a table is a sequence of values without duplicates; Add(v)        *)
-(*       returns the position of v, appending it when new; a copy is a new *)
-(*       table with the same sequence and nothing else in common.          *)
+(* Abs : a table is a sequence of values; Add(v) returns the position of   *)
+(*       v, appending it when new, so a table filled by Add alone has no   *)
+(*       duplicates.  AddValue(v) (BlockTable::add_value, used by the      *)
+(*       reader for every entry of a file and open to applications)        *)
+(*       appends unconditionally; a value stored more than once is found   *)
+(*       at its LAST position.  A copy is a new table with the same        *)
+(*       sequence and nothing else in common.                              *)
 (* Impl: the table also holds a reverse index whose keys are REFERENCES to *)
 (*       stored elements (KeyRef): [own, pos] = element pos of the storage *)
 (*       of table `own`, with the generation `gen` of that storage.  A     *)
@@ -14,6 +18,8 @@
 (*       behaviour (ub).  TBug = "shallow_copy" is the pinned code: copying*)
 (*       a table copies the keys as they are, i.e. still referring to the  *)
 (*       source's storage.  The repaired code re-keys the copy.            *)
+(*       TBug = "copy_counts_keys": the copy numbers its keys by the       *)
+(*       number of keys recorded so far (wrong behind a repeated value).   *)
 (***************************************************************************)
 EXTENDS Integers, Sequences, FiniteSets, TLC
 
@@ -21,9 +27,10 @@ CONSTANT TBug
 
 (* ------------------------------- Abs ----------------------------------- *)
 PosOf(items, v) == IF \E i \in 1..Len(items) : items[i] = v
-                   THEN (CHOOSE i \in 1..Len(items) : items[i] = v) - 1 ELSE -1
+                   THEN (CHOOSE i \in 1..Len(items) : items[i] = v /\ \A j \in (i + 1)..Len(items) : items[j] # v) - 1 ELSE -1
 AbsAdd(items, v) == IF PosOf(items, v) >= 0 THEN [items |-> items, idx |-> PosOf(items, v)]
                     ELSE [items |-> Append(items, v), idx |-> Len(items)]
+AbsAddValue(items, v) == [items |-> Append(items, v), idx |-> Len(items)]
 NoDup(items) == \A i, j \in 1..Len(items) : i # j => items[i] # items[j]
 
 (* ------------------------------- Impl ---------------------------------- *)
@@ -52,14 +59,40 @@ ImplAdd(heap, t, v) ==
                                 ![t].index = @ \cup {[own |-> t, gen |-> heap[t].gen, pos |-> n + 1, idx |-> n]}],
           idx |-> n, ub |-> FALSE]
 
+(* add_value(): append; `indexes_[key] = n` re-uses the entry of an equal key (found by a lookup) or makes one *)
+ImplAddValue(heap, t, v) ==
+    LET f == ImplFind(heap, t, v)
+        n == Len(heap[t].items)
+    IN IF f.ub THEN [heap |-> heap, idx |-> -1, ub |-> TRUE]
+       ELSE IF f.idx >= 0
+            THEN LET k == CHOOSE x \in heap[t].index : Deref(heap, x) = v IN
+                 [heap |-> [heap EXCEPT ![t].items = Append(@, v),
+                                        ![t].index = (@ \ {k}) \cup {[k EXCEPT !.idx = n]}],
+                  idx |-> n, ub |-> FALSE]
+            ELSE [heap |-> [heap EXCEPT ![t].items = Append(@, v),
+                                        ![t].index = @ \cup {[own |-> t, gen |-> heap[t].gen, pos |-> n + 1, idx |-> n]}],
+                  idx |-> n, ub |-> FALSE]
+
 ImplClear(heap, t) == [heap EXCEPT ![t].items = <<>>, ![t].index = {}, ![t].gen = @ + 1]
 ImplDestroy(heap, t) == [heap EXCEPT ![t].alive = FALSE, ![t].items = <<>>, ![t].index = {}]
 
 (* copy construction / assignment of a table: dst becomes a copy of src *)
+(* the repaired code walks the copied items in order: `indexes_[key(item)] = pos++`, so the last position of a *)
+(* repeated value wins and the key refers to the first stored occurrence                                       *)
+RECURSIVE Reindex(_, _, _, _, _)
+Reindex(items, own, gen, i, acc) ==
+    IF i > Len(items) THEN acc
+    ELSE LET same == {k \in acc : items[k.pos] = items[i]} IN
+         IF same = {} THEN Reindex(items, own, gen, i + 1,
+                                   acc \cup {[own |-> own, gen |-> gen, pos |-> i,
+                                              idx |-> IF TBug = "copy_counts_keys" THEN Cardinality(acc) ELSE i - 1]})
+         ELSE LET k == CHOOSE x \in same : TRUE IN
+              Reindex(items, own, gen, i + 1,
+                      IF TBug = "copy_counts_keys" THEN acc            \* emplace keeps the first entry
+                      ELSE (acc \ {k}) \cup {[k EXCEPT !.idx = i - 1]})
 ImplCopy(heap, src, dst) ==
-    [heap EXCEPT ![dst] = [alive |-> TRUE, gen |-> IF heap[dst].alive THEN heap[dst].gen + 1 ELSE heap[dst].gen + 1,
+    [heap EXCEPT ![dst] = [alive |-> TRUE, gen |-> heap[dst].gen + 1,
                            items |-> heap[src].items,
                            index |-> IF TBug = "shallow_copy" THEN heap[src].index
-                                     ELSE {[own |-> dst, gen |-> heap[dst].gen + 1, pos |-> k.pos, idx |-> k.idx] :
-                                               k \in heap[src].index}]]
+                                     ELSE Reindex(heap[src].items, dst, heap[dst].gen + 1, 1, {})]]
 =============================================================================
